@@ -959,7 +959,26 @@ fn gen_candidate(rng: &mut Rng, t: &T) -> [Named; 2] {
     let nmut = rng.below(4);
     for _ in 0..nmut {
         let p = rng.below(2) as usize;
-        match rng.below(11) {
+        match rng.below(12) {
+            11 => {
+                // one single-action infoset mentioned twice, another one not at all (each entry
+                // counts for its own infoset, however often it is repeated)
+                let infos = infosets_of(t);
+                let singles: Vec<u32> = infos[p].iter().filter(|(_, a)| a.len() == 1).map(|(l, _)| *l).collect();
+                if singles.len() >= 2 {
+                    let keep = singles[rng.below(singles.len() as u64) as usize];
+                    let drop = *singles.iter().find(|l| **l != keep).unwrap();
+                    cand[p].retain(|(l, _)| *l != drop);
+                    if let Some(e) = cand[p].iter().find(|(l, _)| *l == keep).cloned() {
+                        if rng.chance(0.5) {
+                            cand[p].push(e);
+                        } else if let Some(k) = cand[p].iter().position(|(l, _)| *l == keep) {
+                            let x = cand[p][k].1[0];
+                            cand[p][k].1.push(x);
+                        }
+                    }
+                }
+            }
             0 => {
                 // drop an infoset
                 if !cand[p].is_empty() {
